@@ -7,6 +7,9 @@
      putf <k> <kind> <j> <id> <tm> <seek1> <ok1> <pass1> <seek2> <chunk>*
                                       -> DONE PUTOK out size | DONE PUTFAILED out size | DONE PUTERR | STOPPED,
                                          then " | " and the operations performed (faulty semantics; k < 0: no fault)
+     conc C <call>* C <call>* ... S <i>[:<j>]*
+                                      -> DONE|RUNNING ## results of client 0 (;;-separated) ## ... ## trace
+                                         (interleaved semantics; i = client, j = torn view of an observing operation)
      get <id>                         -> NF | F out size tm   (numbers: 0 | +<binary> | -<binary>)
      getbytes <id>                    -> NF | F data out size tm
      getfile <id>                     -> NF | F name out size tm
@@ -106,6 +109,54 @@ let handle = function
         | Done (PutFailed (out, size)) -> Printf.sprintf "DONE PUTFAILED %s %d" (hex_of_bytes out) (int_of_nat size)
         | Done (PutOk (out, size)) -> Printf.sprintf "DONE PUTOK %s %d" (hex_of_bytes out) (int_of_nat size) in
       res ^ " | " ^ String.concat " " (List.map show_op tr)
+  | "conc" :: rest ->
+      (* conc C <call>* C <call>* ... S <i>[:<j>]*   with <call> = put <id> <tm> <n> <chunk>^n | get|getbytes|getfile <id> *)
+      let rec calls acc = function
+        | "put" :: id :: tm :: n :: r ->
+            let n = int_of_string n in
+            let rec take k acc r = if k = 0 then (List.rev acc, r) else (match r with x :: t -> take (k - 1) (arg x :: acc) t | [] -> failwith "chunks") in
+            let (chunks, r') = take n [] r in
+            ignore (path_of "a" id);
+            calls (CPut (bytes_of_hex id, chunks, z_of_int (int_of_string tm)) :: acc) r'
+        | "get" :: id :: r -> calls (CGet (bytes_of_hex id) :: acc) r
+        | "getbytes" :: id :: r -> calls (CGetBytes (bytes_of_hex id) :: acc) r
+        | "getfile" :: id :: r -> calls (CGetFile (bytes_of_hex id) :: acc) r
+        | r -> (List.rev acc, r) in
+      let rec clients acc = function
+        | "C" :: r -> let (cs, r') = calls [] r in clients (cs :: acc) r'
+        | "S" :: r -> (List.rev acc, r)
+        | _ -> failwith "bad conc request" in
+      let (cl_calls, sched) = clients [] rest in
+      let entry s = match String.split_on_char ':' s with
+        | [i] -> (nat_of_int (int_of_string i), None)
+        | [i; j] -> (nat_of_int (int_of_string i), Some (nat_of_int (int_of_string j)))
+        | _ -> failwith "bad schedule entry" in
+      let st0 = (List.map (start h) cl_calls, init_sys !store) in
+      let kind_of = function IdxP _ -> "a" | DatP o -> ignore (path_of "d" (hex_of_bytes o)); "d" in
+      let op_name = function
+        | OStat p -> "stat:" ^ kind_of p | OOpen (p, _, _) -> "open:" ^ kind_of p | ORead (p, _, _) -> "read:" ^ kind_of p
+        | OReadAll p -> "readall:" ^ kind_of p | OWrite (p, _, _) -> "write:" ^ kind_of p | OTruncate (p, _) -> "truncate:" ^ kind_of p
+        | OClose p -> "close:" ^ kind_of p | ORemove p -> "remove:" ^ kind_of p | OChtimes p -> "chtimes:" ^ kind_of p in
+      let trace = Buffer.create 256 in
+      let st = List.fold_left (fun (cls, s) e ->
+          (match List.nth_opt cls (int_of_nat (fst e)) with
+           | Some { cur = Some (Op (o, _)) } -> Buffer.add_string trace (Printf.sprintf "%d:%s " (int_of_nat (fst e)) (op_name o))
+           | _ -> Buffer.add_string trace (Printf.sprintf "%d:idle " (int_of_nat (fst e))));
+          sched_step h e (cls, s)) st0 (List.map entry sched) in
+      let (cls, s) = st in
+      store := s.sfiles;
+      let show_res = function
+        | XPut PutErrEarly -> "PUTERR"
+        | XPut (PutFailed (_, _)) -> "PUTFAILED"
+        | XPut (PutOk (out, size)) -> Printf.sprintf "PUTOK %s %d" (hex_of_bytes out) (int_of_nat size)
+        | XGet e -> show_entry e
+        | XBytes NotFound -> "NF"
+        | XBytes (Found (d, out, size, tm)) -> Printf.sprintf "F %s %s %s %s" (show_bytes d) (hex_of_bytes out) (show_z size) (show_z tm)
+        | XFile NotFound -> "NF"
+        | XFile (Found (p, out, size, tm)) -> Printf.sprintf "F %s %s %s %s" (string_of_bytes (path_name p)) (hex_of_bytes out) (show_z size) (show_z tm) in
+      (if finished cls then "DONE" else "RUNNING") ^ " ## " ^
+      String.concat " ## " (List.map (fun cl -> String.concat " ;; " (List.map show_res cl.results)) cls)
+      ^ " ## " ^ Buffer.contents trace
   | ["get"; id] -> show_entry (get !store (bytes_of_hex id))
   | ["getbytes"; id] ->
       (match get_bytes h !store (bytes_of_hex id) with
